@@ -198,6 +198,33 @@ def obs_matrix(obs, order):
     return embed(op_matrix(obs), list(obs.wires), list(order))
 
 
+def apply_linear(psi, obs, order):
+    """O|psi> for a (possibly non-unitary) operator, without building the full-space matrix."""
+    name = type(obs).__name__
+    n = len(order)
+    if name == "Sum":
+        out = np.zeros_like(psi)
+        for o in obs.operands:
+            out = out + apply_linear(psi, o, order)
+        return out
+    if name == "SProd":
+        return complex(np.asarray(obs.scalar)) * apply_linear(psi, obs.base, order)
+    if name == "Prod":
+        out = psi
+        for o in reversed(obs.operands):
+            out = apply_linear(out, o, order)
+        return out
+    if name in ("LinearCombination", "Hamiltonian"):
+        out = np.zeros_like(psi)
+        for c, o in zip(*obs.terms()):
+            out = out + complex(np.asarray(c)) * apply_linear(psi, o, order)
+        return out
+    if len(obs.wires) == 0:
+        return psi * op_matrix(obs).reshape(-1)[0]
+    t = np.asarray(psi, dtype=complex).reshape((2,) * n)
+    return apply(t, op_matrix(obs), [order.index(w) for w in obs.wires]).reshape(-1)
+
+
 def reduced_dm(psi, order, wires):
     order = list(order)
     n = len(order)
@@ -237,11 +264,11 @@ def measure(psi, mp, order):
     if kind == "DensityMatrixMP":
         return reduced_dm(psi, order, list(mp.wires))
     if kind in ("ExpectationMP", "VarianceMP"):
-        O = obs_matrix(mp.obs, order)
-        e = np.vdot(psi, O @ psi)
+        Opsi = apply_linear(psi, mp.obs, order)
+        e = np.vdot(psi, Opsi)
         if kind == "ExpectationMP":
             return e.real
-        e2 = np.vdot(psi, O @ (O @ psi))
+        e2 = np.vdot(psi, apply_linear(Opsi, mp.obs, order))
         return (e2 - e * e).real
     if kind == "ProbabilityMP":
         if mp.obs is not None:
